@@ -48,7 +48,7 @@ impl<'ctx> CodeFinder<'ctx> {
             final(w).fs == old(w).fs, final(w).log == old(w).log,
             same_but_fs(World { protected: final(w).protected, files: final(w).files, stop_seen: final(w).stop_seen, ..*old(w) }, *final(w)),
             r.is_some() ==> finder_ok(r.unwrap().code_files@, *final(w)) && tree_small(final(w).files, final(w).fs)
-                && (forall|p: Seq<char>| final(w).protected.contains(p) ==> old(w).fs.dom().contains(p) && !is_temp(p) && p != lock_path()),
+                && (forall|p: Seq<char>| #[trigger] final(w).protected.contains(p) ==> old(w).fs.dom().contains(p) && !is_temp(p) && p != lock_path()),
             r.is_some() ==> final(w).stop_seen == old(w).stop_seen,   // a poll that returned true makes discovery fail
             r.is_none() ==> final(w).protected == old(w).protected && final(w).files == old(w).files,
     { unimplemented!() }
@@ -64,13 +64,15 @@ impl Context {
             atomic_inv(*old(w)), // [C07.frame]
         ensures
             same_but_fs(World { log: final(w).log, ..*old(w) }, *final(w)),
-            forall|p: Seq<char>| p != lock_path() ==> final(w).fs.dom().contains(p) == old(w).fs.dom().contains(p) && final(w).fs[p] == old(w).fs[p],
+            forall|p: Seq<char>| p != lock_path() ==> (#[trigger] final(w).fs.dom().contains(p)) == old(w).fs.dom().contains(p),
+            forall|p: Seq<char>| p != lock_path() ==> (#[trigger] final(w).fs[p]) == old(w).fs[p],
             !self.config.use_cache ==> final(w).fs == old(w).fs,
             // written completely, or (failed write, reported as a warning) anything at the lock path only
-            self.config.use_cache ==> (final(w).fs.dom().contains(lock_path()) && final(w).fs[lock_path()] == lock_bytes(id)) || lock_write_failed(*final(w)),
+            self.config.use_cache ==> (final(w).fs.dom().contains(lock_path()) && final(w).fs[lock_path()] == lock_bytes(id)) || lock_write_failed(),
     { unimplemented!() }
 }
-pub uninterp spec fn lock_write_failed(w: World) -> bool;
+// whether this run's write of the lock file failed (reported as warning [ref: 33]/[ref: 34])
+pub uninterp spec fn lock_write_failed() -> bool;
 
 // ---- atomics ------------------------------------------------------------------------------------------------
 // the stop flag: a stop request may be seen at any poll
